@@ -27,6 +27,8 @@ MAX_UNROLL = 16
 def _const_seq(e: ast.expr, consts: dict[str, ast.expr]) -> list[ast.expr] | None:
     if isinstance(e, ast.Name) and e.id in consts:
         e = consts[e.id]
+    elif isinstance(e, ast.Attribute) and isinstance(e.value, ast.Name) and ('.' + e.attr) in consts and (e.value.id in ('self', 'cls') or e.value.id[:1].isupper()):
+        e = consts['.' + e.attr]          # class-level constant table read through self / cls / the class
     if isinstance(e, (ast.Tuple, ast.List)) and 0 < len(e.elts) <= MAX_UNROLL:
         if all(_simple(x) or (isinstance(x, ast.Tuple) and all(_simple(y) for y in x.elts)) for x in e.elts):
             return list(e.elts)
@@ -60,6 +62,68 @@ def _nt_fields(e: ast.expr) -> dict[str, ast.expr] | None:
     return out
 
 
+PAIR_ATTRS = {'kernel_size', 'stride', 'padding', 'dilation'}      # torch.nn.Conv2d normalises these to pairs (A3)
+
+
+def _known_len(e: ast.expr, fn: ast.AST) -> int | None:
+    if isinstance(e, (ast.Tuple, ast.List)) and not any(isinstance(x, ast.Starred) for x in e.elts):
+        return len(e.elts)
+    src = e
+    if isinstance(e, ast.Name):
+        defs = [n for n in ast.walk(fn) if isinstance(n, ast.Assign) and len(n.targets) == 1 and isinstance(n.targets[0], ast.Name) and n.targets[0].id == e.id]
+        nst = sum(1 for n in ast.walk(fn) if isinstance(n, ast.Name) and n.id == e.id and isinstance(n.ctx, (ast.Store, ast.Del)))
+        if len(defs) != 1 or nst != 1:
+            return None
+        src = defs[0].value
+    if isinstance(src, ast.Call) and isinstance(src.func, ast.Name) and src.func.id == 'cast' and len(src.args) == 2:
+        src = src.args[1]
+    if isinstance(src, ast.Attribute) and src.attr in PAIR_ATTRS and isinstance(src.value, ast.Attribute) and src.value.attr == 'module':
+        return 2
+    return None
+
+
+def _elem_of(e: ast.expr, j: int) -> ast.expr:
+    if isinstance(e, (ast.Tuple, ast.List)):
+        return copy.deepcopy(e.elts[j])
+    return ast.copy_location(ast.Subscript(value=copy.deepcopy(e), slice=ast.Constant(value=j), ctx=ast.Load()), e)
+
+
+def _iter_seq(e: ast.expr, fn: ast.AST) -> list[ast.expr] | None:
+    """Elements of `zip(a, b)`, `enumerate(x, start=c)` or a pair-valued local, when the lengths are known."""
+    if isinstance(e, ast.Call) and isinstance(e.func, ast.Name) and e.func.id == 'zip' and e.args and not e.keywords:
+        lens = [_known_len(a, fn) for a in e.args]
+        if None in lens or len(set(lens)) != 1 or not all(isinstance(a, (ast.Name, ast.Tuple, ast.List)) for a in e.args):
+            return None
+        return [ast.copy_location(ast.Tuple(elts=[_elem_of(a, j) for a in e.args], ctx=ast.Load()), e) for j in range(lens[0])]
+    if isinstance(e, ast.Call) and isinstance(e.func, ast.Name) and e.func.id == 'enumerate' and e.args:
+        start = 0
+        extra = list(e.args[1:]) + [k.value for k in e.keywords if k.arg == 'start']
+        if len(extra) > 1 or any(k.arg != 'start' for k in e.keywords):
+            return None
+        if extra:
+            if not (isinstance(extra[0], ast.Constant) and isinstance(extra[0].value, int)):
+                return None
+            start = extra[0].value
+        inner = _iter_seq(e.args[0], fn)
+        if inner is None:
+            return None
+        return [ast.copy_location(ast.Tuple(elts=[ast.Constant(value=start + j), x], ctx=ast.Load()), e) for j, x in enumerate(inner)]
+    if isinstance(e, ast.Name):
+        n = _known_len(e, fn)
+        if n is not None:
+            return [_elem_of(e, j) for j in range(n)]
+    return None
+
+
+def _bind_target(t: ast.expr, v: ast.expr, m: dict[str, ast.expr]) -> bool:
+    if isinstance(t, ast.Name):
+        m[t.id] = v
+        return True
+    if isinstance(t, (ast.Tuple, ast.List)) and isinstance(v, (ast.Tuple, ast.List)) and len(t.elts) == len(v.elts):
+        return all(_bind_target(a, b, m) for a, b in zip(t.elts, v.elts))
+    return False
+
+
 def _simple(e: ast.expr) -> bool:
     if isinstance(e, ast.Constant):
         return True
@@ -90,7 +154,29 @@ def _module_consts(tree: ast.Module) -> dict[str, ast.expr]:
         if isinstance(tg, ast.Name) and isinstance(v, (ast.Tuple, ast.List)) and v.elts and \
                 all(_simple(x) or (isinstance(x, ast.Tuple) and x.elts and all(_simple(y) for y in x.elts)) for x in v.elts):
             val[tg.id] = v
-    return {k: v for k, v in val.items() if count.get(k) == 1}
+    out = {k: v for k, v in val.items() if count.get(k) == 1}
+    # class-level tables: bound once in a class body, never stored to as an attribute
+    attr_stores = {n.attr for n in ast.walk(tree) if isinstance(n, ast.Attribute) and isinstance(n.ctx, (ast.Store, ast.Del))}
+    seen: dict[str, int] = {}
+    cval: dict[str, ast.expr] = {}
+    for c in ast.walk(tree):
+        if not isinstance(c, ast.ClassDef):
+            continue
+        for st in c.body:
+            tg = None
+            if isinstance(st, ast.Assign) and len(st.targets) == 1:
+                tg, v = st.targets[0], st.value
+            elif isinstance(st, ast.AnnAssign) and st.value is not None:
+                tg, v = st.target, st.value
+            if isinstance(tg, ast.Name):
+                seen[tg.id] = seen.get(tg.id, 0) + 1
+                if isinstance(v, (ast.Tuple, ast.List)) and v.elts and all(_simple(x) or (isinstance(x, ast.Tuple) and x.elts and all(_simple(y) for y in x.elts)) for x in v.elts) \
+                        and isinstance(v, ast.Tuple):
+                    cval[tg.id] = v
+    for k, v in cval.items():
+        if seen.get(k) == 1 and k not in attr_stores:
+            out['.' + k] = v
+    return out
 
 
 class _Sub(ast.NodeTransformer):
@@ -795,6 +881,32 @@ def _unroll(fn: ast.AST, consts: dict[str, ast.expr], log: list[str]) -> None:
                     nb = _continue_to_nest(st.body)
                     if nb is not None:
                         st.body = nb
+                if isinstance(st, ast.For) and not st.orelse and not _has_jump(st.body) and _const_seq(st.iter, consts) is None:
+                    # zip / enumerate over sequences of known length (literal tuples, Conv2d geometry pairs)
+                    seq2 = _iter_seq(st.iter, fn) if isinstance(st.iter, ast.Call) else None
+                    tn2 = [n.id for n in ast.walk(st.target) if isinstance(n, ast.Name)]
+                    if seq2 is not None and 0 < len(seq2) <= MAX_UNROLL:
+                        body_st2 = set()
+                        for b in st.body:
+                            body_st2 |= _stores(b)
+                        maps = []
+                        for x in seq2:
+                            m2: dict[str, ast.expr] = {}
+                            if not _bind_target(st.target, x, m2):
+                                maps = None
+                                break
+                            maps.append(m2)
+                        if maps and not (set(tn2) & body_st2) and not (set(tn2) & _loads(blk[i + 1:])):
+                            new2: list[ast.stmt] = []
+                            for m2 in maps:
+                                sub2 = _Sub(m2)
+                                for b in st.body:
+                                    new2.append(sub2.visit(copy.deepcopy(b)))
+                            blk[i:i + 1] = new2
+                            log.append(f'line {st.lineno}: unrolled loop over {len(maps)} elements of {ast.unparse(st.iter)[:50]}')
+                            changed = True
+                            i += len(new2)
+                            continue
                 if isinstance(st, ast.For) and not st.orelse and not _has_jump(st.body):
                     seq = _const_seq(st.iter, consts)
                     tnames = [n.id for n in ast.walk(st.target) if isinstance(n, ast.Name)]
